@@ -248,6 +248,20 @@ def run(ctx):
                         tid = mv.cfg.by_ast.get(id(iff.test))
                         if lab and tid is not None and mv.cfg.branch_dominated(tid, lab, nid):
                             ok = True
+            if not ok:
+                # the flags may travel in an options object built from them (`forcing = _Forcing(force_deg_seq, force_dim_seq)`) and be
+                # interpreted by its properties (`if forcing.exhausts_degrees:`): whether that property implies `not force_dim_seq`
+                # is the object's business - undecided here
+                carriers = {a_.targets[0].id for a_ in walk_no_nested(mv.fi.node) if isinstance(a_, ast.Assign) and len(a_.targets) == 1 and isinstance(a_.targets[0], ast.Name) and isinstance(a_.value, ast.Call) and any(isinstance(x, ast.Name) and x.id == flag for x in ast.walk(a_.value))}
+                via_obj = False
+                for iff in walk_no_nested(mv.fi.node):
+                    if isinstance(iff, (ast.If, ast.While)):
+                        tid = mv.cfg.by_ast.get(id(iff.test))
+                        if tid is not None and any(mv.cfg.branch_dominated(tid, lab_, nid) for lab_ in ("T", "F")) and any(isinstance(x, ast.Attribute) and isinstance(x.value, ast.Name) and x.value.id in carriers for x in ast.walk(iff.test)):
+                            via_obj = True
+                if via_obj:
+                    res.unknown("G-DIMSEQ", mv.fi.short, norm(n), "guarded", "the top-up stands under a property of an options object built from the forcing flags; what the property means was not decided", loc(mv.fi, n))
+                    continue
             res.check(ok, "G-DIMSEQ", mv.fi.short, norm(n), "guarded", f"a hyperedge of randomly drawn size (`{norm(drawn[0])[:60]}`) is added on a path where the size sequence may be forced: the sample then has more hyperedges of that size than the conditioned count", loc(mv.fi, n))
         if n_extra == 0:
             res.unknown("G-DIMSEQ", mv.fi.short, "hye_list.append(self._extract_hye(nodes_with_deg, <drawn size>, ...))", "guarded", "no top-up with hyperedges of drawn size recognised", loc(mv.fi, mv.fi.node))
